@@ -56,6 +56,9 @@ CHECKS = {
     "C10": ("runtime monitoring: generated dataclasses whose validators write a call log and consult a harness pass/fail table; constructor counter; logical step budget; executable model of the documented run/skip/discard/merge rule; bounded-exhaustive core + seeded decorations",
             "Exploration: every generated (class, field-status vector, failing set, aliaser) is executed through the real deserialize; which validators ran, in which order, what they read, the merged ValidationError.errors, the constructor count and termination (step budget / RecursionError) are compared with a model written from docs/validation.md and the statement. Thorough executes the complete core space of <=3 fields x <=3 validators in plain form plus seeded decorated forms; held on the K executions reported in the evidence.",
             "Trusted: the model (vf/c10_model.py), the generated validators' own logging, the AST-visible dependency conventions. Not claimed: validators raising other exceptions, flattened/pattern/additional fields as dependencies, fall_back_on_default, class-level aliasers, non-dataclass object types. Known: F34.", "DESIGN §5 C10"),
+    "C20": ("stress (2-16 threads, 1 microsecond switch interval, barriers, fresh types) + systematic schedule injection (sys.monitoring LINE park/yield at the recursion analysis, cache and lazy-initialisation code) + differential twin oracle + invariant monitor on the recursion dictionary + eviction follow-up",
+            "Exploration of schedules: held on the executed interleavings -- about 2*10^3 (quick) / 5*10^4 (thorough) distinct two-thread schedules incl. every park point of the two-member recursive cluster, hundreds / thousands of stressed clusters with 2-16 threads; every concurrent call must equal the same call on a structurally identical twin type used sequentially, recursion-cache entries must be monotone and equal ground truth at quiescence, and re-use after cache eviction must still equal the baseline. The evidence reports the measured overlap of first uses, distinct write orders and schedules (zero overlap = inconclusive).",
+            "Not all schedules; tight check-then-act windows outside the analysis are only reliably reached by the thorough tier. Trusted: the twin construction (shapes without overlapping cycles), the LINE-event injector, CPython 3.12 GIL semantics.", "DESIGN §5 C20"),
 }
 PLANNED = {
 }
